@@ -312,7 +312,17 @@ def run(run):
     timeout = 60 if run.tier == 'quick' else 300
     for n, m in cfgs:
         try:
-            obls = section(rep, n, m)
+            try:
+                obls = section(rep, n, m)
+            except S.SymbolicBranch:
+                # the function branches on a symbolic value (it does not in the unmodified tree):
+                # every outcome is explored, the obligations of a path hold under its path condition
+                for obls_p, ctx_p in enga.section_paths(lambda: section(rep, n, m)):
+                    S.set_ctx(ctx_p)
+                    for ob in obls_p:
+                        ob.meta = dict(ob.meta or {}, use_model=True)
+                    rep.finish(rep.batch(obls_p, timeout_s=timeout, ctx=ctx_p), PROP, ctx_p)
+                continue
         except ValueError as e:
             if 'read-only' not in str(e):
                 raise
